@@ -252,6 +252,7 @@ def Lit.mantDigits : Lit → Str × Nat
   | .fPoint ip fp _ => (ip ++ optSpell fp, nDigits (optSpell fp))
   | .fExp ip _ => (ip, 0)
   | .fDot fp _ => (fp, nDigits fp)
+  | .dec ds => (ds, 0)
   | _ => ([], 0)
 
 def Lit.writtenExp : Lit → Int
@@ -261,8 +262,9 @@ def Lit.writtenExp : Lit → Int
   | _ => 0
 
 /-- exponent window of the implementation's decimal package (±100000 for the written exponent,
-the number of fraction digits and the adjusted exponent).  Outside it the implementation
-silently drops the exponent (a finding); the partial literal theorem assumes it. -/
+the number of fraction digits and the adjusted exponent; for a `decimal_lit` this bounds the
+number of digits by 100001).  Outside it the implementation reports an error (allowed by the
+spec's implementation restriction: "give an error if unable to represent …"). -/
 def Lit.inWindow (l : Lit) : Prop :=
   let e := l.writtenExp
   let f := (l.mantDigits.2 : Int)
